@@ -115,8 +115,9 @@ def lock_probes(verd, variant):
         k_probe = ps[n][1] + 1         # index of t2's granted len()
         parked = (st[k_elem].get("parked") or {}) if len(st) > k_elem else {}
         if parked.get("k") != "elem":
-            out[n] = "no element callback reached (%s)" % parked
-            continue
+            # the probe is vacuous (this silently happened to contains / index once they cloned the needle before taking the
+            # lock: the one-shot element pause was used up outside the lock): never accept that quietly
+            raise vlib.ToolError("lock probe for %s reached no element callback after the acquire point (parked: %s)" % (n, parked))
         held = len(st) > k_probe and st[k_probe].get("blocked") is True
         out[n] = "lock held" if held else "LOCK NOT HELD"
         if not held:
